@@ -28,7 +28,7 @@ pub fn t_range_direct(data: &[u8], ctx: &mut Ctx) -> CheckResult {
     let version = if gen::idx(u, 3) == 2 { ProofVersion::Version1 } else { ProofVersion::Version2 };
     let v = gen_attr(u, Flavor::Web3);
     let want_true = gen::idx(u, 3) != 2;
-    let kind = gen_range_kind(u, &v, Flavor::Web3, want_true);
+    let kind = retag_range(gen_range_kind(u, &v, Flavor::Web3, want_true), Flavor::Web3, 0);
     let MKind::Range { lo, hi } = kind.clone() else { unreachable!() };
     let tctx = gen::short_bytes(u, 16);
     let mut rng = gen::rng(u);
